@@ -521,8 +521,9 @@ impl Model
                     }
                     else
                     {
-                        // type-wide reactors for a dead entity: left open by the property set
-                        exp.optional.push(Obs::Mut{ c, e, scoped: false });
+                        // the call still causes exactly one trigger: entity-scoped registrations died with the entity,
+                        // type-wide mutation reactors run
+                        exp.required.push(Obs::Mut{ c, e, scoped: false });
                         exp.cells.push("mutation_trigger/dead_at_apply".into());
                     }
                 }
